@@ -131,13 +131,16 @@ def _measurables(draw, c, s, from_year, zero_progs=()):
 def _alloc(draw, c, start_year):
     """allocation of the caller's instructions: copied from the progset / absent / one value per program / time series whose values
     differ between the years (mode 'series': in the instructions, mode 'book': in the program book's spending data, no overwrite)"""
-    mode = draw(st.sampled_from(["progset", "progset", "none", "dict", "dict", "series", "series", "series", "book"]))
+    mode = draw(st.sampled_from(["progset", "progset", "none", "dict", "unfunded", "unfunded", "series", "series", "series", "book"]))
     vals = {}
-    if mode == "dict":
-        zero = _one_in(draw, 2)  # some programs unfunded at the start (quantities that are exactly 0 under the caller's instructions)
-        for p, v in c["progs"]:
+    if mode in ("dict", "unfunded"):
+        zero = mode == "unfunded"  # some programs unfunded at the start (quantities that are exactly 0 under the caller's instructions)
+        for i, (p, v) in enumerate(c["progs"]):
             if zero or not _one_in(draw, 4):
                 vals[p] = [[start_year], [v * draw(st.sampled_from([0.0, 0.0, 1.0, 1.0, 2.0] if zero else [0.5, 1.0, 1.0, 2.0]))]]
+        if zero and all(tv[1][0] == 0.0 for tv in vals.values()):
+            p, v = c["progs"][-1]
+            vals[p] = [[start_year], [v]]  # somebody is funded
     elif mode in ("series", "book"):
         k = draw(st.sampled_from([1, 2, 2, 3]))
         for p, v in draw(st.lists(st.sampled_from(c["progs"]), min_size=k, max_size=k, unique=True)):
@@ -165,7 +168,7 @@ def _adjustments(draw, c, alloc, start_year, finite=False):
     varying = [p for p in progs if alloc["mode"] in ("series", "book") and p in alloc["vals"]]
     if varying and not _one_in(draw, 5):
         chosen = (varying + [p for p in chosen if p not in varying])[:k]  # programs whose starting spend changes over time come first
-    unfunded = [p for p in progs if alloc["mode"] == "dict" and p in alloc["vals"] and alloc["vals"][p][1][0] == 0.0]
+    unfunded = [p for p in progs if alloc["mode"] in ("dict", "unfunded") and p in alloc["vals"] and alloc["vals"][p][1][0] == 0.0]
     if unfunded and not _one_in(draw, 4):
         k = max(k, 2)
         funded = [p for p in chosen if p not in unfunded] or [p for p in progs if p not in unfunded][:1]
@@ -235,10 +238,10 @@ def optimize_cases(draw, kind, fault_iters=6):
         side = draw(st.sampled_from(["above", "below"])) if slo > 0 else "above"
         how = draw(st.sampled_from(["total", "factor"]))
         target = shi * (1 + eps) if side == "above" else slo * (1 - eps)
-        if how == "total":
+        cur = math.fsum(r["x0"] for r in rows)
+        if how == "total" or cur == 0:
             case["con"] = {"t": [t], "total": [target], "bf": 1.0}
         else:
-            cur = math.fsum(r["x0"] for r in rows)
             case["con"] = {"t": [t], "total": None, "bf": target / cur}
         case["meas"] = [{"cls": "max", "name": c["characs"][-1], "t": {"range": [start_year, "inf"]}, "pops": None}]
         case["budget"] = {"maxiters": 2, "via": "opt"}
@@ -256,7 +259,10 @@ def optimize_cases(draw, kind, fault_iters=6):
         rows = _rows_pure(c, case)
         tot = [None if draw(st.booleans()) else math.fsum(r["x0"] for r in rows if r["t"] == t) * draw(st.sampled_from([0.9, 1.0, 1.1])) for t in ty]
         case["con"] = {"t": ty, "total": tot, "bf": 1.0}
-    zero_progs = sorted(set(r["prog"] for r in _rows_pure(c, case) if r["cur"] == 0))
+    rows = _rows_pure(c, case)
+    if case["con"] is not None and any(math.fsum(r["x0"] for r in rows if r["t"] == t) == 0 for t in set(r["t"] for r in rows)):
+        case["con"] = None  # a total of zero cannot be redistributed (division by the total): outside the domain
+    zero_progs = sorted(set(r["prog"] for r in rows if r["cur"] == 0))
     case["meas"] = _measurables(draw, c, s, min(years), zero_progs)  # mostly after the first adjusted year, so that the objective can respond
     case["budget"] = _budget(draw, small=(fault_iters if kind == "optimize-fault" else 0))
     case["randseed"] = draw(st.integers(0, 2**31 - 1))
